@@ -22,6 +22,7 @@ type cache struct {
 var _ Cache = (*cache)(nil)
 
 func (c *cache) Get(templatePath string) *Template {
+	verifYield("cache:Get")
 	_t, ok := c.m.Load(templatePath)
 	if !ok {
 		return nil
@@ -30,5 +31,6 @@ func (c *cache) Get(templatePath string) *Template {
 }
 
 func (c *cache) Put(templatePath string, t *Template) {
+	verifYield("cache:Put")
 	c.m.Store(templatePath, t)
 }
